@@ -351,7 +351,7 @@ def _logu(lo, hi):
 @st.composite
 def _material(draw):
     base = dict(draw(st.sampled_from(FKM_POOL)))
-    if draw(st.integers(0, 3)) == 0:
+    if draw(st.integers(0, 4)) == 3:
         base["mat"] = "free:" + base["mat"]
         base["E"] = base["E"] * draw(st.floats(0.9, 1.1))
         base["K"] = base["K"] * draw(st.floats(0.8, 1.25))
@@ -394,7 +394,7 @@ def _magnitudes(draw, n, regime):
 
 @st.composite
 def _loads(draw, rm, n, allow_zero=True):
-    regime = draw(st.sampled_from(["wide", "wide", "plastic", "plastic", "elastic"]))
+    regime = draw(st.sampled_from(["plastic", "wide", "plastic", "wide", "plastic", "elastic"]))
     mags = draw(_magnitudes(n, regime))
     signs = draw(st.sampled_from(["pos", "pos", "neg", "alternate", "mixed"]))
     out = []
@@ -403,7 +403,7 @@ def _loads(draw, rm, n, allow_zero=True):
         if s is None:
             s = draw(st.sampled_from([1.0, -1.0]))
         out.append(s * x * rm)
-    if allow_zero and draw(st.integers(0, 11)) == 0:
+    if allow_zero and draw(st.integers(0, 15)) == 7:
         out[draw(st.integers(0, n - 1))] = 0.0
     order = draw(st.sampled_from(["asis", "asis", "reversed", "perm"])) if n > 1 else "asis"
     if order == "reversed":
@@ -543,7 +543,7 @@ def _pre_gates(case, ctx, fname, kind, values):
 # ------------------------------------------------------------------------------------------------
 # sub-check 1: root, bounds, sign, strain
 
-@subcheck(PROP, "root", strategy=_root_cases, quick=1400, thorough=60000,
+@subcheck(PROP, "root", strategy=_root_cases, quick=1200, thorough=60000,
           doc="stress / stress_secondary_branch return the root of eq. 2.5-45/46 resp. 2.8-42/43 within the requested tolerance, "
               "inside [|L|/K_p,|L|], with the sign of L; strain / strain_secondary_branch equal Ramberg-Osgood of that stress")
 def root(case, ctx):
